@@ -144,7 +144,7 @@ var propSpecs = map[string]*propSpec{
 			{"keyaccessor", 15000, func(g *gen, id string) *UnitCase { return g.keyAccessorUnit(id) }},
 		},
 		id:      "C03",
-		streams: []stream{{"targets", 15000}, {"wellformed", 4000}, {"wide", 800}},
+		streams: []stream{{"targets", 15000}, {"wellformed", 4000}, {"wide", 800}, {"manykinds", 3000}},
 		proj: func(o *WObs) any {
 			if o.Result.Reason.Kind == "TARGET_MATCH" {
 				return []any{true, o.Result.Index}
